@@ -878,6 +878,12 @@ def rule_embed_sources(check, model, rules):
                                 key=key, guards=gtext, effect=show(binit)[:200],
                                 witness="embed(embed(p, q), r).sources['+depths'][r_func] must be 2; wrappers.wrapper_decorator: the wrapped function "
                                         "must be deeper than the decorator that calls it")
+            elif ok_outer and inner_ok and plus and ('outer', 5) in _origins(model, inc) and not any(
+                    s_[0] == 'B' and s_[1] == 'Add' and K(1) in (s_[2], s_[3]) and ('outer', 5) in _origins(model, s_) for s_ in _deep_subterms(model, inc)):
+                # (mutant sweep 5) one step *further* than the forwarding callable: its depth plus one
+                check.violation(rules['arith'], site(None, dep[-1].node), 'the increment is computed from the depths of the forwarding callables without '
+                                'adding one: the embedded callable is reported at the depth of the callable that forwards to it', key=key, guards=gtext,
+                                effect=show(inc)[:160], witness="embed(embed(p, q), r).sources['+depths'][r_func] must be 2")
             elif ok_outer and inner_ok and plus:
                 check.holds(rules['arith'], site(None, dep[-1].node), 'outer depths kept, inner depths increased past the forwarding callable, combined '
                             'by merge_depths', key=key, guards=gtext)
@@ -913,6 +919,19 @@ def rule_embed_sources(check, model, rules):
 
 # ---------------------------------------------------------------------------
 # the accumulator of embed()'s fold is a plain tuple
+
+def _deep_subterms(model, t, _seen=None):
+    """subterms of t, looking also into what the containers it mentions were built from"""
+    _seen = _seen if _seen is not None else set()
+    for s_ in subterms(t):
+        yield s_
+        if isinstance(s_, tuple) and s_ and s_[0] in ('L', 'D', 'SET') and s_ not in _seen:
+            _seen.add(s_)
+            init = model.interp.obj_init.get(s_)
+            if init is not None:
+                for x in _deep_subterms(model, init, _seen):
+                    yield x
+
 
 def _namedtuple_fields(repo, name='SortedParameters'):
     m = repo.modules.get('_signatures')
